@@ -53,7 +53,9 @@ FaultOK(ev) ==
   /\ FinishedLastOnce(ev.reports) /\ ev.built = ev.dropped
   /\ CASE ev.cfg.fault = "puncturer_misfit" -> ev.result = "error" /\ Len(ev.stats) = 0
        [] ev.cfg.fault \in {"interleaver_misfit", "psk8_misfit"} -> ev.result = "error"
-       [] ev.cfg.fault = "decoder_panic" -> ev.result \in {"ok", "error"}
+       \* a worker whose decoder panicked cannot be joined cleanly: the run must report an error; when no decoder was ever asked to decode
+       \* its fatal frame (a worker can be told to stop first) the run may also end normally
+       [] ev.cfg.fault = "decoder_panic" -> IF ev.panics > 0 THEN ev.result = "error" ELSE ev.result \in {"ok", "error"}
        [] OTHER -> FALSE
 
 \* Cheap NECESSARY conditions of the search below (Match: the counted errors never exceed the target; EpochEnd: the returned
